@@ -475,11 +475,17 @@ def drive(prop, cfg, tier, seed, binary, extra, scratch, args, t0, vmerge):
         log("  %-30s evals=%-9d nontrivial=%-9d%s" % (name, s["evaluations"], s["distinct_nontrivial"],
                                                       " exhaustive" if s["exhaustive"] else ""))
     if violations:
-        seen = set()
+        # one line per (sub-check, signature): the smallest replay wins
+        best = {}
         for sub, sig, msg, path in violations:
-            if (sig, path) in seen:
-                continue
-            seen.add((sig, path))
+            try:
+                size = os.path.getsize(path)
+            except OSError:
+                size = 1 << 60
+            if (sub, sig) not in best or size < best[(sub, sig)][0]:
+                best[(sub, sig)] = (size, sub, sig, msg, path)
+        for key in sorted(best):
+            _, sub, sig, msg, path = best[key]
             log("violation in %s [%s]: %s" % (sub, sig, msg[:1500]))
             log("VIOLATION property=%s replay=%s" % (prop, path))
         return 1
